@@ -12,7 +12,7 @@ from mitmproxy.proxy import context
 from mitmproxy.proxy.layers import dns as dnslayer
 
 U16, U32 = 65535, 4294967295
-HOST = [b"www", b"example", b"com", b"ORG", b"mail", b"ns1", b"ns2", b"Host-1", b"_sip", b"_tcp", b"a", b"xn--bcher-kva", b"xn--mnchen-3ya", b"x" * 63]
+HOST = [b"www", b"example", b"cdn-example", b"xcom", b"com", b"ORG", b"mail", b"ns1", b"ns2", b"Host-1", b"_sip", b"_tcp", b"a", b"xn--bcher-kva", b"xn--mnchen-3ya", b"x" * 63]
 ODD = [b"xn--BCHER-kva", b"xn--BcHEr-kVA", b"xn--MNCHEN-3ya", b"a.b", b"\xc3\xa9t\xc3\xa9", b"\xc0\x0c", b"xn--a", b"XN--A", b"caf\xe9", b" ", b"*"]
 _OPTS = None
 
